@@ -222,6 +222,11 @@ def classify(r):
     fn = loc.get("function", "") or ""
     if desc.startswith("vacuity."):
         return "mustfail"
+    if (loc.get("file") or "") == "<predicate>" and re.search(r"\.(pointer_arithmetic|pointer_dereference|pointer|overflow|pointer_primitives|array_bounds)\.", pid):
+        # safety checks cbmc generates *inside the text of an external loop invariant* (file "<predicate>"); they are
+        # evaluated on the havocked state before the invariant is assumed, i.e. on arbitrary pointers: artefact of the
+        # specification expression, not an obligation on the code (DESIGN 2.11).  Not counted, never a verdict.
+        return "specexpr"
     if "unwinding assertion" in desc or ".unwind." in pid or "recursion unwinding" in desc:
         return "structure"
     if "undefined function should be unreachable" in desc or "no body for" in desc:
@@ -520,6 +525,27 @@ def run_unit1(name, tier, workdir, cfg, extra_defs=(), tag="p"):
             ur.reason = "cbmc reported: " + "; ".join(errors[:3])
             ur.wall = time.time() - t0
             return ur
+        # cbmc leaves obligations that are only reachable past a FAILED one as UNKNOWN (it cuts the path there);
+        # decide those in follow-up runs restricted to them (the failed ones are then not asserted)
+        for _round in range(3):
+            unk = [r.get("property") for r in results if r.get("status") not in ("SUCCESS", "FAILURE")]
+            if not unk or len(unk) > 1500:
+                break
+            extra = []
+            for pn in unk:
+                extra += ["--property", pn]
+            cmd2, rc2, out2, err2, wall2 = run_cbmc(u, igb, uw, extra=extra)
+            res2, _, _, errors2 = parse_cbmc_json(out2)
+            if rc2 == -9 or res2 is None or errors2:
+                break
+            upd = {r.get("property"): r for r in res2}
+            progressed = False
+            for k, r in enumerate(results):
+                if r.get("property") in upd and upd[r.get("property")].get("status") in ("SUCCESS", "FAILURE"):
+                    results[k] = upd[r.get("property")]
+                    progressed = True
+            if not progressed:
+                break
         for r in results:
             loc = r.get("sourceLocation", {}) or {}
             ur.results.append({"id": r.get("property"), "cls": classify(r), "desc": r.get("description", ""),
